@@ -54,12 +54,14 @@ Definition ucr_read (fuel : nat) (max : N) (u : ucr) : (bytes * err) * ucr :=
 
 (** * errorHandlingChunkReader *)
 Record ehc := mkEhc { ec_cur : ucr; ec_off : N; ec_h : hst }.
-Definition ehc_init (fuel : nat) (b : bufscript) (h : hst) : ehc := mkEhc (ucr_open fuel b 0) 0 h.
-Fixpoint ehc_read (fuel : nat) (max : N) (r : ehc) : (bytes * err) * ehc :=
+Definition ehc_init (ifuel : nat) (b : bufscript) (h : hst) : ehc := mkEhc (ucr_open ifuel b 0) 0 h.
+(** [ifuel] bounds the loops of the readers underneath, [fuel] the number of
+    replacements tried within one Read. *)
+Fixpoint ehc_read (ifuel fuel : nat) (max : N) (r : ehc) : (bytes * err) * ehc :=
   match fuel with
   | O => (([], EFuel), r)
   | Datatypes.S f =>
-      let '((chunk, e), cur') := ucr_read (Datatypes.S f) max (ec_cur r) in
+      let '((chunk, e), cur') := ucr_read ifuel max (ec_cur r) in
       match e with
       | ENone => ((chunk, ENone), mkEhc cur' (ec_off r + lenN chunk) (ec_h r))
       | EEof => (([], EEof), mkEhc cur' (ec_off r) (ec_h r))
@@ -67,7 +69,7 @@ Fixpoint ehc_read (fuel : nat) (max : N) (r : ehc) : (bytes * err) * ehc :=
           let '(a, h') := on_error (ec_h r) e in
           match a with
           | Fail c => (([], ECode c), mkEhc cur' (ec_off r) h')
-          | Replace b => ehc_read f max (mkEhc (ucr_open (Datatypes.S f) b (ec_off r)) (ec_off r) h')
+          | Replace b => ehc_read ifuel f max (mkEhc (ucr_open ifuel b (ec_off r)) (ec_off r) h')
           end
       end
   end.
@@ -170,7 +172,7 @@ Section ErrorHandling.
     end.
 
   Definition ehv := vst ehc.
-  Definition ehv_read (max : N) : ehv -> (bytes * err) * ehv := vcr_read H cfg (ehc_read fuel max) fuel.
+  Definition ehv_read (max : N) : ehv -> (bytes * err) * ehv := vcr_read H cfg (ehc_read fuel fuel max) fuel.
   Definition ehv_close (st : ehv) : ehv := v_set_u st (ehc_close (v_u st)).
 
   Definition ehrv := vst ehr.
